@@ -149,13 +149,13 @@ Section Top.
           rewrite total_len_last. unfold byte in *. lia.
         * lia.
   Qed.
-  (* Partial decoding by the safe loop: output end [oend] = min(target, capacity), [k] bytes of
+  (* Partial decoding (fast loop on or off): output end [oend] = min(target, capacity), [k] bytes of
      anything may follow the block in the source when the decode stops inside the content. *)
-  Theorem dec_generic_partial_safe_loop (B hist D : list Z) oend k m0 :
+  Theorem dec_generic_partial (fastloop : bool) (B hist D : list Z) oend k m0 :
     strict_valid hist B = Some D -> bytes B -> src_at srcm 0 B ->
     out_at (get m0) 0 (rev hist) -> Z.of_nat (length hist) <= - lowPrefix ->
     0 <= oend -> 0 <= k -> (k = 0 \/ oend <= Z.of_nat (length D)) ->
-    let '(r, m, _) := dec_generic false true dict srcm (Z.of_nat (length B) + k) oend lowPrefix rlow dictm dictSize m0 in
+    let '(r, m, _) := dec_generic fastloop true dict srcm (Z.of_nat (length B) + k) oend lowPrefix rlow dictm dictSize m0 in
     r = Z.min oend (Z.of_nat (length D)) /\ forall i, 0 <= i < r -> get m i = nth (Z.to_nat i) D 0.
   Proof.
     intros Hv Hb Hs Hh Hhl Hoe Hk Htr.
@@ -172,14 +172,15 @@ Section Top.
     destruct (oend =? 0) eqn:E0.
     - split; [lia|]. intros i Hi. lia.
     - assert (E2 : (Z.of_nat (length B) + k =? 0) = false) by (unfold byte in *; lia). rewrite E2.
-      cbn [andb].
-      pose proof (run_sim_part true dict srcm (Z.of_nat (length B) + k) oend lowPrefix rlow dictm dictSize HlowP Hds
-                    _ _ _ _ Ep (rev hist) rout' (mkD 0 0 m0 true) (Z.to_nat (Z.of_nat (length B) + k) + 2) eq_refl Eapp Eend Hb) as HR.
+      pose proof (run_sim_part_fast true dict srcm (Z.of_nat (length B) + k) oend lowPrefix rlow dictm dictSize HlowP Hds
+                    _ _ _ _ Ep (rev hist) rout' (mkD 0 0 m0 true) (Z.to_nat (Z.of_nat (length B) + k) + 2)
+                    (fastloop && negb (oend <? FASTLOOP_SAFE_DISTANCE)) eq_refl Eapp Eend Hb) as HR.
       cbn [ip op dm] in HR.
       destruct HR as (s' & Hrun & Hout); try lia.
       + exact Hs.
       + intros j Hj. rewrite vget_hi by (rewrite rev_length in Hj; lia). apply Hh. exact Hj.
       + rewrite rev_length. lia.
+      + unfold FASTLOOP_SAFE_DISTANCE. lia.
       + rewrite Hrun. rewrite <- HlenD. split; [lia|].
         intros i Hi. rewrite <- HD.
         rewrite <- (vget_hi lowPrefix dictm dictSize (dm s') i) by lia.
